@@ -841,6 +841,22 @@ pub fn run(args: &Args) -> i32 {
         done.store(true, Ordering::Relaxed);
     });
 
+    // ---------- one type name defined by two definitions, for every ordered pair of kinds (and a directive of that name),
+    // referred to from an output and an input position
+    {
+        let before = ctx.evals.load(Ordering::Relaxed);
+        let kinds = ["scalar X", "type X { a: Int }", "interface X { a: Int }", "union X = Query", "enum X { A }", "input X { a: Int }", "directive @X on FIELD"];
+        let mut texts = vec![];
+        for a in kinds {
+            for b in kinds {
+                for user in ["", "extend type Query { x: X }", "extend type Query { f(x: X): Int }", "extend type Query { x: [X!]! f(x: X = null): Int }"] {
+                    texts.push(format!("type Query {{ q: Int }}\n{a}\n{b}\n{user}\n"));
+                }
+            }
+        }
+        par_for(texts.len(), args.threads, |i| ctx.run(Via::Schema, "one-name-two-definitions", &texts[i]));
+        family_counts.insert("one-name-two-definitions".into(), json!({"cases": ctx.evals.load(Ordering::Relaxed) - before}));
+    }
     // ---------- the configuration option product through the real binary: a panic is an exit status that is
     // neither 0 nor 1, or "panicked at" on stderr
     let cli_cfg = cli_configurations(args, &rep);
